@@ -265,10 +265,9 @@ structure WOpts where
 
 def boolStr (b : Bool) : Str := if b then sTrue else sFalse
 
-/-- the line the writer emits when there are no class labels -/
-def noLabelLine : Str := "@class_label false".toList
-/-- the line a loadable file needs (proposed fix) -/
-def noLabelLineFixed : Str := "@classLabel false".toList
+/-- the line the writer emits when there are no class labels (before fix 8439410 it was
+`@class_label false`, which the parser does not recognise as the class-label tag) -/
+def noLabelLine : Str := "@classLabel false".toList
 
 /-- zip_longest(rows, values) for `values` empty or as long as `rows` -/
 def caseLines (univariate : Bool) : List (List Str) → List Str → List Str
@@ -298,7 +297,6 @@ def writeWith (nl : Str) (o : WOpts) (panel : List (List Str)) (values : List St
   else .ok (unlines (headerLines nl o ++ caseLines o.univariate panel values))
 
 def write := writeWith noLabelLine
-def writeFixed := writeWith noLabelLineFixed
 
 /-! ### `load_from_arff_to_dataframe` -/
 
